@@ -781,3 +781,18 @@ struct ReadTransactionCounterInner {
     read_transactions: Mutex<usize>,
     cvar: Condvar,
 }
+
+/// Re-exports for the out-of-tree verification harnesses (add-only).
+#[cfg(feature = "verif-hooks")]
+#[doc(hidden)]
+pub mod verif_hooks {
+    pub use super::allocator::PageNumber;
+    pub use super::branch::node as branch_node;
+    pub use super::leaf::node as leaf_node;
+    pub use super::ops::bit_ops::{
+        bitwise_memcpy, prefix_len, reconstruct_key, separate, separator_len,
+    };
+    pub use super::ops::overflow::verif_hooks as overflow;
+    pub use super::ops::overflow::{decode_cell, encode_cell};
+    pub use super::ops::{find_key_pos, search_branch};
+}
